@@ -187,6 +187,75 @@ theorem shared_is_slice_of_common (net : θ → Vec → Vec)
       simp only [bind, Except.bind]
       cases applySlice (some s) (.vec w) <;> rfl
 
+/-! ### negative indices and bounds: Python semantics, legal selections are never empty -/
+
+theorem sliceFT_length (v : List α) (a b : Nat) (hb : b ≤ v.length) : (sliceFT v a b).length = b - a := by
+  unfold sliceFT
+  simp only [List.length_take, List.length_drop]
+  omega
+
+theorem normBound_le (n : Nat) (i : Int) : normBound n i ≤ n := by
+  unfold normBound
+  split <;> omega
+
+/-- a slice with Python semantics has `stop − start` elements (bounds normalised and clamped) -/
+theorem pySlice_length (v : List α) (a b : Option Int) :
+    (pySlice v a b).length =
+      (match b with | none => v.length | some b => normBound v.length b)
+        - (match a with | none => 0 | some a => normBound v.length a) := by
+  unfold pySlice
+  apply sliceFT_length
+  cases b with
+  | none => exact Nat.le_refl _
+  | some b => exact normBound_le _ _
+
+/-- a legal integer index (`-n ≤ i < n`, negative = from the end) reads an existing component -/
+theorem pyIndex_legal (v : List α) (i : Int) (h : -(v.length : Int) ≤ i ∧ i < (v.length : Int)) :
+    ∃ r, pyIndex v i = some r := by
+  unfold pyIndex
+  by_cases h0 : 0 ≤ i
+  · have : i.toNat < v.length := by omega
+    exact ⟨v[i.toNat], by simp [h0, this]⟩
+  · have h1 : -i ≤ (v.length : Int) := by omega
+    have : (i + (v.length : Int)).toNat < v.length := by omega
+    exact ⟨v[(i + (v.length : Int)).toNat], by simp [h0, h1, this]⟩
+
+/-- `v[-1]` is the last component -/
+theorem pyIndex_neg_one (v : List α) (h : v ≠ []) : pyIndex v (-1) = v.getLast? := by
+  unfold pyIndex
+  have hl : 0 < v.length := List.length_pos_iff.2 h
+  have e : ((-1 : Int) + (v.length : Int)).toNat = v.length - 1 := by omega
+  have h1 : -(-1 : Int) ≤ (v.length : Int) := by omega
+  simp only [show ¬ (0 : Int) ≤ -1 by omega, if_false, h1, if_true, e]
+  rw [List.getLast?_eq_getElem?]
+
+/-- **a legal selection of existing components is never empty**: an integer index drops the axis and
+    the forced trailing axis gives a length-one vector; a slice with `start < stop` keeps `stop − start
+    ≥ 1` components. -/
+theorem applySlice_legal_nonempty (s : OutSlice) (v : Vec) (h : s.legal v.length = true) :
+    ∃ r, applySlice (some s) (.vec v) = .ok r ∧ 1 ≤ (ensureTrailingAxis r).length := by
+  cases s with
+  | index i =>
+    simp only [OutSlice.legal, decide_eq_true_eq] at h
+    obtain ⟨r, hr⟩ := pyIndex_legal v i h
+    exact ⟨.scalar r, by simp [applySlice, hr], by simp [ensureTrailingAxis]⟩
+  | range a b =>
+    simp only [OutSlice.legal, decide_eq_true_eq] at h
+    refine ⟨.vec (pySlice v a b), rfl, ?_⟩
+    simp only [ensureTrailingAxis, pySlice_length]
+    cases a <;> cases b <;> simp only [] at h ⊢ <;> omega
+
+/-- … hence the wrapper's output has a component axis of length ≥ 1 whenever the un-sliced value is
+    a vector and the slice designates existing components. -/
+theorem evalNN_legal_selection_nonempty (net : θ → Vec → Vec) (inT : Vec → PArg θ → Except String Vec)
+    (outT : Vec → Val → PArg θ → Except String Val) (s : OutSlice) (inputs : Vec) (p : PArg θ) (w : Vec)
+    (hp : preSlice net inT outT inputs p = .ok (.vec w)) (hs : s.legal w.length = true) :
+    ∃ v, evalNN net inT outT (some s) inputs p = .ok v ∧ 1 ≤ v.length := by
+  obtain ⟨r, hr, hlen⟩ := applySlice_legal_nonempty s w hs
+  refine ⟨ensureTrailingAxis r, ?_, hlen⟩
+  rw [evalNN_eq_preSlice]
+  simp [hp, hr, bind, Except.bind, pure, Except.pure]
+
 /-! ### SPINN -/
 
 theorem foldl_add_eq_sum {α : Type} (f : α → Rat) (l : List α) (a : Rat) :
@@ -887,7 +956,7 @@ local macro "ex_eval" : tactic => `(tactic| (
   have hs : ("g" == "b") = false := by decide
   norm_num [hs, exIn, exOut, exEq, exNet, exInner, exHyper, evalNN, pinnCall, callInputs, mlpEval, Layer.apply, dot,
     Act.apply, TDesc.applyIn, TDesc.applyOut, TDesc.applyVal, Coef.eval, PArg.eqParams, PArg.nn, lookupEq,
-    List.lookup, bop, squeeze, applySlice, sliceFT, ensureTrailingAxis, bind, Except.bind, pure, Except.pure,
+    List.lookup, bop, squeeze, applySlice, pySlice, pyIndex, normBound, sliceFT, ensureTrailingAxis, bind, Except.bind, pure, Except.pure,
     Val.flat, Except.map]))
 
 -- hypotheses of `evalNN_composition` (a transform pair that reads `eq_params` and an input coordinate)
@@ -895,12 +964,21 @@ example : exIn.applyIn [3/2, 1] (PArg.full exNet exEq) = .ok [3, 2] := by ex_eva
 example : exOut.applyOut [3/2, 1] (squeeze (mlpEval exNet [3, 2])) (PArg.full exNet exEq)
     = .ok (.vec [5/2, 31/2]) := by ex_eval
 -- … and its conclusion on that instance, with an integer slice: the component axis is restored
-example : evalNN (fun θ z => mlpEval θ z) exIn.applyIn exOut.applyOut (some (.index 1)) [3/2, 1]
+example : evalNN (fun θ z => mlpEval θ z) exIn.applyIn exOut.applyOut (some (.index (-1))) [3/2, 1]
     (.full exNet exEq) = .ok [31/2] := by ex_eval
 -- hypotheses of `shared_is_slice_of_common` / `evalNN_has_component_axis`
 example : evalNN (fun θ z => mlpEval θ z) exIn.applyIn exOut.applyOut none [3/2, 1]
     (.full exNet exEq) = .ok [5/2, 31/2] := by ex_eval
-example : (applySlice (some (.range 1 2)) (.vec [5/2, 31/2])).map ensureTrailingAxis = .ok [31/2] := by ex_eval
+example : (applySlice (some (.range (some 1) (some 2))) (.vec [5/2, 31/2])).map ensureTrailingAxis = .ok [31/2] := by
+  rfl
+-- negative index / bounds: the last component, with its axis
+example : (applySlice (some (.index (-1))) (.vec [5/2, 31/2])).map ensureTrailingAxis = .ok [31/2] := by
+  rfl
+example : pySlice [10, 11, 12] (some (-2)) (some (-1)) = [11] ∧ pySlice [10, 11, 12] none (some (-1)) = [10, 11]
+    ∧ pySlice [10, 11, 12] (some (-1)) none = [12] ∧ pySlice [10, 11, 12] (some (-1)) (some 0) = ([] : List Nat) := by
+  decide
+example : (OutSlice.index (-1)).legal 3 = true ∧ (OutSlice.range (some (-1)) none).legal 3 = true
+    ∧ (OutSlice.range (some (-1)) (some 0)).legal 3 = false := by decide
 -- `evalNN_one_output`: a one-output network, squeezed to a 0-d array, comes back with its axis
 example : mlpEval exInner [1/2] = [7/2, 5] := by ex_eval
 example : mlpEval [.linear [[2, 1]] [1]] [1, 1] = [4] := by ex_eval
